@@ -31,7 +31,7 @@ import (
 func init() {
 	core.Register(&core.Monitor{
 		ID:            "C08",
-		Rule:          "era x output form (Mary, Alonzo legacy; Babbage, Conway, Dijkstra legacy and map) x quantity q in {-2^70,-2^64-1,-2^64,-2^64+1,-2^63-1,-2^63,-2^63+1,-2^31,-2,-1 (paired with 1-q, i.e. also 2^63+1, 2^64+1, 2^70+1), 0, 1, 2^63, 2^64-1, 2^64, 2^65 (as the sum of in-range inputs), and -2^70..2^70 in the collateral return} x CBOR form (shortest uint/nint/bignum, forced tag-2/tag-3 bignum) x position (first output, second output, collateral return) in a transaction that balances arithmetically; thorough adds PRNG quantities of 1..90 bits; a case is non-trivial when the transaction bytes parse as CBOR and carry a multi-asset output; distinct by the full case description",
+		Rule:          "era x output form (Mary, Alonzo legacy; Babbage, Conway, Dijkstra legacy and map) x quantity q in {-2^70,-2^64-1,-2^64,-2^64+1,-2^63-1,-2^63,-2^63+1,-2^31,-2,-1 (paired with 1-q, i.e. also 2^63+1, 2^64+1, 2^70+1), 0, 1, 2^63, 2^64-1, 2^64, 2^65 (as the sum of in-range inputs), and -2^70..2^70 in the collateral return} x CBOR form (shortest uint/nint/bignum; forced tag-2/tag-3 bignum; bignum with the tag number in a 1-byte or 8-byte argument; bignum with leading zero bytes; bignum over a chunked byte string; uint/nint with an 8-byte argument) x policy id (a hash; 28 bytes none of which is in 0x20..0x3f or 0xc2/0xc3, so that a byte-scan short cut around the range check is taken) x position (first output, second output, collateral return) in a transaction that balances arithmetically; thorough adds PRNG quantities of 1..90 bits; a case is non-trivial when the transaction bytes parse as CBOR and carry a multi-asset output; distinct by the full case description",
 		MinNontrivial: 300,
 		Assumptions: []string{
 			"the token-carrying transaction built by ledgergen is valid in every other respect (pre-flight: the in-range balanced transaction is accepted in every era / output form)",
@@ -43,6 +43,16 @@ func init() {
 
 var (
 	policy = lg.Blake224([]byte("c08-policy"))
+	// quietPolicy has no byte that looks like the head of a negative integer
+	// (0x20..0x3f) or of a one-byte bignum tag (0xc2, 0xc3): a range check that
+	// is skipped after a byte scan of the encoded value ("plain unsigned
+	// integers always fit") is only skipped for such values
+	quietPolicy = func() (b lg.Hash28) {
+		for i := range b {
+			b[i] = 0x40 + byte(i)
+		}
+		return
+	}()
 	max64  = new(big.Int).SetUint64(^uint64(0))
 )
 
@@ -53,20 +63,57 @@ type qform int
 const (
 	formNatural qform = iota // cborx.Big: uint / nint / bignum as needed
 	formBignum               // always tag 2 / tag 3
+	formBignumWideTag        // tag 2 / tag 3 with the tag number in a 1-byte argument (d8 02 / d8 03)
+	formBignumWideTag8       // ... in an 8-byte argument (db 00..02)
+	formBignumPadded         // tag 2 / tag 3 whose byte string has leading zero bytes
+	formBignumChunked        // tag 2 / tag 3 over an indefinite-length (chunked) byte string
+	formWideInt              // uint / nint written with an 8-byte argument where it fits, else as formBignumWideTag
+	nForms
 )
 
-func (f qform) String() string { return [...]string{"shortest", "bignum-tag"}[f] }
+var allForms = []qform{formNatural, formBignum, formBignumWideTag, formBignumWideTag8, formBignumPadded, formBignumChunked, formWideInt}
+
+func (f qform) String() string {
+	return [...]string{"shortest", "bignum-tag", "bignum-tag-1byte-head", "bignum-tag-8byte-head", "bignum-padded", "bignum-chunked", "wide-int"}[f]
+}
 
 func qnode(q *big.Int, f qform) *cborx.Node {
 	if f == formNatural {
 		return cborx.Big(q)
 	}
-	if q.Sign() >= 0 {
-		return cborx.T(2, cborx.B(q.Bytes()))
+	tag, m := uint64(2), q
+	if q.Sign() < 0 {
+		tag = 3
+		m = new(big.Int).Neg(q)
+		m.Sub(m, big.NewInt(1))
 	}
-	m := new(big.Int).Neg(q)
-	m.Sub(m, big.NewInt(1))
-	return cborx.T(3, cborx.B(m.Bytes()))
+	if f == formWideInt {
+		if m.IsUint64() {
+			n := cborx.U(m.Uint64())
+			if tag == 3 {
+				n = cborx.NegArg(m.Uint64())
+			}
+			n.SetForm(cborx.Form8)
+			return n
+		}
+		f = formBignumWideTag
+	}
+	content := cborx.B(m.Bytes())
+	switch f {
+	case formBignumPadded:
+		content = cborx.B(append([]byte{0, 0, 0}, m.Bytes()...))
+	case formBignumChunked:
+		mb := m.Bytes()
+		content.SetFormChunks(cborx.FormIndef, 1+len(mb)/2)
+	}
+	t := cborx.T(tag, content)
+	switch f {
+	case formBignumWideTag:
+		t.SetForm(cborx.Form1)
+	case formBignumWideTag8:
+		t.SetForm(cborx.Form8)
+	}
+	return t
 }
 
 type shape struct {
@@ -94,22 +141,34 @@ type tcase struct {
 	q      *big.Int
 	form   qform
 	pos    int // 0: q in the first output, 1: in the second
+	quiet  bool // use quietPolicy
+}
+
+func (t tcase) policy() lg.Hash28 {
+	if t.quiet {
+		return quietPolicy
+	}
+	return policy
 }
 
 func (t tcase) String() string {
-	return fmt.Sprintf("%s family=%s q=%s cbor=%s position=%d", t.sh, t.family, t.q, t.form, t.pos)
+	d := fmt.Sprintf("%s family=%s q=%s cbor=%s position=%d", t.sh, t.family, t.q, t.form, t.pos)
+	if t.quiet {
+		d += " policy=quiet-bytes"
+	}
+	return d
 }
 
 func outOfRange(q *big.Int) bool { return q.Sign() < 0 || q.Cmp(max64) > 0 }
 
-func tok(q *big.Int, f qform) lg.Asset {
-	return lg.Asset{Policy: policy, Name: []byte("A"), Qty: q, QtyNode: qnode(q, f)}
-}
 
 // build returns the world and the transaction of a case plus the quantities
 // the generator put into outputs (for the oracle).
 func build(t tcase) (w *lg.World, spec *lg.TxSpec, written []*big.Int) {
 	one := big.NewInt(1)
+	tok := func(q *big.Int, f qform) lg.Asset {
+		return lg.Asset{Policy: t.policy(), Name: []byte("A"), Qty: q, QtyNode: qnode(q, f)}
+	}
 	out := func(w *lg.World, coin uint64, as ...lg.Asset) lg.Output {
 		return lg.Output{Addr: w.PayerAddr(), Coin: coin, Assets: as, MapForm: t.sh.mapForm}
 	}
@@ -197,7 +256,7 @@ func build(t tcase) (w *lg.World, spec *lg.TxSpec, written []*big.Int) {
 
 // decodedQuantities lists the quantities of asset A the library reports for
 // the outputs (and collateral return) of a decoded transaction.
-func decodedQuantities(tx common.Transaction) []string {
+func decodedQuantities(tx common.Transaction, policy lg.Hash28) []string {
 	var out []string
 	add := func(o common.TransactionOutput) {
 		if o == nil || o.Assets() == nil {
@@ -215,11 +274,25 @@ func decodedQuantities(tx common.Transaction) []string {
 	return out
 }
 
+type formPolicy struct {
+	f     qform
+	quiet bool
+}
+
+func formsAndPolicies() []formPolicy {
+	var out []formPolicy
+	for _, f := range allForms {
+		out = append(out, formPolicy{f, false}, formPolicy{f, true})
+	}
+	return out
+}
+
 func cases(c *core.Ctx) []tcase {
 	var cs []tcase
 	neg := func(b *big.Int) *big.Int { return new(big.Int).Neg(b) }
 	for _, sh := range shapes {
-		for _, f := range []qform{formNatural, formBignum} {
+		for _, fq := range formsAndPolicies() {
+			f, quiet := fq.f, fq.quiet
 			for pos := 0; pos < 2; pos++ {
 				// sign x magnitude boundaries: around the int64 and the uint64 limits
 				// (a range check split into a machine-word path and a bignum path
@@ -227,23 +300,23 @@ func cases(c *core.Ctx) []tcase {
 				for _, q := range []*big.Int{big.NewInt(-1), big.NewInt(-2), neg(pow2(31)), neg(new(big.Int).Sub(pow2(63), big.NewInt(1))),
 					neg(pow2(63)), neg(new(big.Int).Add(pow2(63), big.NewInt(1))), neg(new(big.Int).Sub(pow2(64), big.NewInt(1))),
 					neg(pow2(64)), neg(new(big.Int).Add(pow2(64), big.NewInt(1))), neg(pow2(70))} {
-					cs = append(cs, tcase{sh, "pair", q, f, pos})
+					cs = append(cs, tcase{sh, "pair", q, f, pos, quiet})
 				}
 				for _, q := range []*big.Int{big.NewInt(-1), neg(new(big.Int).Add(pow2(63), big.NewInt(1))), neg(pow2(64))} {
-					cs = append(cs, tcase{sh, "pair-dup", q, f, pos})
+					cs = append(cs, tcase{sh, "pair-dup", q, f, pos, quiet})
 				}
 				for _, q := range []*big.Int{pow2(64), pow2(65)} {
-					cs = append(cs, tcase{sh, "oversized", q, f, pos})
+					cs = append(cs, tcase{sh, "oversized", q, f, pos, quiet})
 				}
 				for _, q := range []*big.Int{big.NewInt(1), pow2(63), new(big.Int).Set(max64)} {
-					cs = append(cs, tcase{sh, "inrange", q, f, pos})
+					cs = append(cs, tcase{sh, "inrange", q, f, pos, quiet})
 				}
-				cs = append(cs, tcase{sh, "zero", big.NewInt(0), f, pos})
+				cs = append(cs, tcase{sh, "zero", big.NewInt(0), f, pos, quiet})
 			}
 			if sh.era.HasCollateralReturn() {
 				for _, q := range []*big.Int{big.NewInt(-1), neg(pow2(63)), neg(new(big.Int).Add(pow2(63), big.NewInt(1))), neg(new(big.Int).Sub(pow2(64), big.NewInt(1))),
 					neg(pow2(64)), neg(pow2(70)), pow2(64), new(big.Int).Add(pow2(64), big.NewInt(1)), pow2(70)} {
-					cs = append(cs, tcase{sh, "collret", q, f, 0})
+					cs = append(cs, tcase{sh, "collret", q, f, 0, quiet})
 				}
 			}
 		}
@@ -256,13 +329,14 @@ func cases(c *core.Ctx) []tcase {
 			q.And(q, new(big.Int).Sub(pow2(bits), big.NewInt(1)))
 			q.SetBit(q, int(bits)-1, 1)
 			sh := core.Pick(r, shapes)
-			f := qform(r.Intn(2))
+			f := qform(r.Intn(int(nForms)))
 			pos := r.Intn(2)
+			quiet := r.Bool()
 			switch {
 			case r.Chance(1, 2) || q.Cmp(max64) > 0:
-				cs = append(cs, tcase{sh, "pair", neg(q), f, pos})
+				cs = append(cs, tcase{sh, "pair", neg(q), f, pos, quiet})
 			default:
-				cs = append(cs, tcase{sh, "inrange", q, f, pos})
+				cs = append(cs, tcase{sh, "inrange", q, f, pos, quiet})
 			}
 		}
 	}
@@ -272,7 +346,7 @@ func cases(c *core.Ctx) []tcase {
 func run(c *core.Ctx) {
 	// pre-flight: the balanced in-range token transaction is accepted
 	for _, sh := range shapes {
-		w, s, _ := build(tcase{sh, "inrange", big.NewInt(7), formNatural, 1})
+		w, s, _ := build(tcase{sh, "inrange", big.NewInt(7), formNatural, 1, false})
 		if o := w.Run(s, w.Slot); !o.Accepted {
 			forceInconclusive(c, fmt.Sprintf("pre-flight: %s balanced in-range token transaction not accepted (decode=%v verify=%v)", sh, o.DecodeErr, o.VerifyErr))
 			return
@@ -355,7 +429,7 @@ func run(c *core.Ctx) {
 			fmt.Sprintf("%s transaction whose output carries asset quantity %s (%s) was decoded and accepted by the full rule list; %s", t.sh.era, t.q, kind, desc),
 			map[string]any{
 				"case": desc, "era": t.sh.era.String(), "output_form": tag, "family": t.family,
-				"quantities_written_into_outputs": ws, "quantities_reported_by_decoded_outputs": decodedQuantities(o.Tx),
+				"quantities_written_into_outputs": ws, "quantities_reported_by_decoded_outputs": decodedQuantities(o.Tx, t.policy()),
 				"tx_cbor": core.HexFull(b.Cbor), "tx_id": fmt.Sprintf("%x", b.TxId[:]),
 			})
 	})
